@@ -23,6 +23,8 @@
 (*   [c |-> "Delta", terms]              terms = << <<name, point, ld>> >> *)
 (*   [c |-> "Fin", op, args]             einsum / stack / cat on outputs   *)
 (*   [c |-> "Tup", args]                                                   *)
+(*   [c |-> "Integ", measure, integrand, vars]   sum over vars of           *)
+(*        exp(measure) * integrand  (bounded-integer vars)                 *)
 (*   [c |-> "Gauss", ins, rank, S, w]    Gaussian -1/2 ||x S - w||^2: ins =*)
 (*        << <<name, dom>> >> (bounded-integer batch inputs and real       *)
 (*        inputs, in order); S row-major over batch.., dim, rank; w over   *)
@@ -197,6 +199,7 @@ TI(t) ==
               Merge(<< <<t.terms[k][1], t.terms[k][2].to>> >>,
                     Merge(t.terms[k][2].ti, t.terms[k][3].ti))])
     [] t.c \in {"Fin", "Tup"} -> MergeLeft(<<>>, [k \in 1..Len(t.args) |-> t.args[k].ti])
+    [] t.c = "Integ" -> FilterPairs(Merge(t.measure.ti, t.integrand.ti), Names(t.vars))
     [] OTHER -> <<>>
 
 TO(t) ==
@@ -218,6 +221,7 @@ TO(t) ==
           ELSE FoldOutDom([n |-> t.bin, p |-> <<>>], [k \in 1..Len(t.terms) |-> t.terms[k].to]))
     [] t.c = "Align" -> t.arg.to
     [] t.c = "Delta" -> RealD
+    [] t.c = "Integ" -> t.integrand.to
     [] OTHER -> Dom(-1, <<>>)
 
 \* annotate a node whose children are annotated
@@ -251,6 +255,8 @@ Ann(t) ==
     [] t.c \in {"Fin"} ->
          Mk([c |-> t.c, op |-> t.op, args |-> [k \in 1..Len(t.args) |-> Ann(t.args[k])]])
     [] t.c = "Tup" -> Mk([c |-> "Tup", args |-> [k \in 1..Len(t.args) |-> Ann(t.args[k])]])
+    [] t.c = "Integ" ->
+         Mk([c |-> "Integ", measure |-> Ann(t.measure), integrand |-> Ann(t.integrand), vars |-> t.vars])
     [] OTHER -> Mk(t)
 
 RECURSIVE Strip(_)
@@ -283,6 +289,8 @@ Strip(t) ==
          [c |-> "Delta",
           terms |-> [k \in 1..Len(t.terms) |->
                        <<t.terms[k][1], Strip(t.terms[k][2]), Strip(t.terms[k][3])>>]]
+    [] t.c = "Integ" ->
+         [c |-> "Integ", measure |-> Strip(t.measure), integrand |-> Strip(t.integrand), vars |-> t.vars]
     [] OTHER -> t
 
 \* for raw terms
@@ -436,6 +444,12 @@ Eval(t, env) ==
     [] t.c = "ConBody" ->
          AFoldSeq(t.bin, [k \in 1..Len(t.terms) |-> Eval(t.terms[k], env)])
     [] t.c = "Align" -> Eval(t.arg, env)
+    [] t.c = "Integ" ->
+         (LET body == [c |-> "IntegBody", measure |-> t.measure, integrand |-> t.integrand,
+                       ti |-> Merge(t.measure.ti, t.integrand.ti)]
+          IN IF t.vars = <<>> THEN Eval(body, env) ELSE EvalRed("add", body, t.vars, env))
+    [] t.c = "IntegBody" ->
+         Pointwise2("mul", Pointwise1("exp", Eval(t.measure, env)), Eval(t.integrand, env))
     [] t.c = "Delta" ->
          AFoldSeq("add",
            [k \in 1..Len(t.terms) |->
